@@ -280,6 +280,13 @@ dLUMemInit(fact_t fact, void *work, int_t lwork, int m, int n, int_t annz,
 	    nzlmax /= 2;
 	    if ( nzlumax < annz ) {
 		printf("Not enough memory to perform factorization.\n");
+		if ( Glu->MemModel == SYSTEM ) {
+		    SUPERLU_FREE(xsup);
+		    SUPERLU_FREE(supno);
+		    SUPERLU_FREE(xlsub);
+		    SUPERLU_FREE(xlusup);
+		    SUPERLU_FREE(xusub);
+		}
 		SUPERLU_FREE(Glu->expanders);
 		Glu->expanders = NULL;
 		return (dmemory_usage(nzlmax, nzumax, nzlumax, n) + n);
